@@ -89,6 +89,11 @@ static int fiber_context_alloc_stack(fiber_context_t* context,
   context->ctx_stack_size = stack_size;
 #elif defined(FIBER_STACK_MMAP)
   context->ctx_stack_size = fiber_round_to_page_size(stack_size);
+  if (context->ctx_stack_size < stack_size) {
+    // rounding up wrapped around: the request cannot be satisfied
+    errno = ENOMEM;
+    return 0;
+  }
   context->ctx_stack = mmap(0, context->ctx_stack_size, PROT_READ | PROT_WRITE,
                             MAP_PRIVATE | MAP_ANONYMOUS, -1, 0);
   if (context->ctx_stack == MAP_FAILED) {
